@@ -3,6 +3,10 @@ use crate::Result;
 use core::str;
 use std::collections::HashMap;
 
+// Upper bound for the number of entries reserved from the declared entry count
+// before the entries have been read.
+const MAX_PREALLOCATED_ENTRIES: usize = 1024;
+
 /// Unique identifier of a reference to an [ExternalFile].
 #[derive(Debug, PartialEq, Eq, Hash, Clone, Copy)]
 pub struct ExternalFileId(u32);
@@ -46,7 +50,7 @@ impl ExternalFile {
         let entry_ct = reader.dword()?;
         reader.skip_reserved(8)?;
 
-        let mut results = Vec::with_capacity(entry_ct as usize);
+        let mut results = Vec::with_capacity((entry_ct as usize).min(MAX_PREALLOCATED_ENTRIES));
         for _ in 0..entry_ct {
             let id = ExternalFileId::new(reader.dword()?);
             reader.skip_reserved(8)?;
